@@ -70,7 +70,7 @@ CHECKS["C13"] = mc("E1-choice-tree + E3",
   "Weight vectors whose lcm of node sums makes the tree exceed the budget are skipped and counted.", "4/C13")
 CHECKS["C14"] = mc("E3-bounded-exhaustive x fault plans",
   "bounded-exhaustive enumeration of composition trees x fault plans (deviation bound 2) on the real combinators through the erased layer, differential against the CompRef interpreter",
-  "All composition trees up to depth 2 (thorough: plus a stride of depth 3) over {probe, Identity, then, and, map over [T;2]/(T,T)/Vec, then_map, apply_n_times 0..3}; failure plans none / every single probe call / every pair: output value, error path, probe log (order, inputs, words drawn) and final tape position must equal CompRef's; every plan applied a second time to the same combinator value; mapped vectors of 255..70001 elements with the failure at the far end; Identity, Constant, GenomeExtractor, GenomeScorer, Mutate/Recombine wrappers add nothing. The reported error through the interface generic code has: for 19 typed compositions (then/and/map/repeat nestings up to depth 4, also boxed through DynOperator) the source() chain from the reported error has depth+1 links and ends at the failing part's own error.",
+  "All composition trees up to depth 2 (thorough: plus a stride of depth 3) over {probe, Identity, then, and, map over [T;2]/(T,T)/Vec, then_map, apply_n_times 0..3}; failure plans none / every single probe call / every pair: output value, error path, probe log (order, inputs, words drawn) and final tape position must equal CompRef's; every plan applied a second time to the same combinator value; mapped vectors of 255..70001 elements with the failure at the far end; Identity, Constant, GenomeExtractor, GenomeScorer, Mutate/Recombine wrappers add nothing. The reported error through the interface generic code has: for 19 typed compositions (then/and/map/repeat nestings up to depth 4, also boxed through DynOperator) the source() chain from the reported error has depth+1 links and ends at the failing part's own error, and the miette diagnostic_source() chain shows the same links.",
   "Error paths are compared through the derived Debug of ThenError/AndError/MapError, and through Display + source() in the error-chain cases.", "4/C14")
 CHECKS["C15"] = mc("E3-bounded-exhaustive",
   "small-scope exhaustive algebra: all pairs/triples over a boundary value domain, all short result vectors",
